@@ -1100,6 +1100,11 @@ func (m *Model) writeUnits(e *termEval) []*writeUnit {
 						wu.Cols[col] = colSrc{Kind: "bound", Term: &Term{Kind: "opaque", Name: "unbound-parameter"}, Expr: ex}
 					} else {
 						bfr := fr
+						if cs.Helper != nil && b.Fr != nil && b.Fr.caller != nil {
+							// a value inside the statement helper (or its argument packer): its own frame,
+							// hung under this calling context
+							bfr = rerootFrame(b.Fr, fr)
+						}
 						wu.Cols[col] = colSrc{Kind: "bound", Term: e.term(b.V, cs.Call, bfr), Expr: ex}
 					}
 				case ex.Kind == sqlp.ELit:
